@@ -22,11 +22,13 @@ from .symx import (B, I, R, SymBool, SymInt, SymReal, Unsupported, ctx, is_sym, 
 
 class FElem:
     """A float value: NaN flag + real value (value irrelevant when nan). Also serves as a float scalar proxy."""
-    __slots__ = ("nan", "val")
+    __slots__ = ("nan", "val", "frac", "rng")
 
-    def __init__(self, nan, val):
+    def __init__(self, nan, val, frac=None, rng=None):
         self.nan = nan
         self.val = val
+        self.frac = frac      # optional exact form (int_term, positive python int): val == int_term / n
+        self.rng = rng        # optional (lo, hi) python ints known to bound val (from the source dtype)
 
     def __repr__(self):
         return "FElem(%s, %s)" % (self.nan, self.val)
@@ -152,6 +154,10 @@ def _dimt(d):
     return I(d)
 
 
+def _simp(t):
+    return z3.simplify(t, som=True) if z3.is_expr(t) else t
+
+
 def _key_of(idx):
     return tuple(i.get_id() if z3.is_expr(i) else ("c", i) for i in idx)
 
@@ -198,6 +204,18 @@ class SArr:
     def __init__(self, shape, dtype, get, setreg=None, frz=None, name=None):
         self.shape = tuple(shape)
         self.dtype = _np.dtype(dtype)
+        if setreg is None and frz is None:
+            # a computed (immutable) array: memoise its elements per index term
+            raw = get
+            memo = {}
+
+            def get(idx, raw=raw, memo=memo):
+                k = _key_of(idx)
+                r = memo.get(k)
+                if r is None:
+                    r = raw(idx)
+                    memo[k] = r
+                return r
         self._get = get
         self._setreg = setreg
         self._frz = frz or (lambda: get)
@@ -267,7 +285,19 @@ class SArr:
 
         def setreg(cond, val):
             old = cell[0]
-            cell[0] = lambda idx: elem_ite(cond(idx), val(idx), old(idx))
+            memo = {}
+
+            def layer(idx):
+                # every layer is immutable once created: memoise per index term (avoids exponential re-evaluation
+                # when a write reads the previous content, e.g. np.maximum(b, i, out=b))
+                k = _key_of(idx)
+                r = memo.get(k)
+                if r is None:
+                    r = elem_ite(cond(idx), val(idx), old(idx))
+                    memo[k] = r
+                return r
+
+            cell[0] = layer
 
         return cls(shape, dtype, get, setreg, frz=lambda: cell[0], name=name)
 
@@ -282,10 +312,20 @@ class SArr:
             fn = z3.Function(name + "__nan", *ints, z3.BoolSort())
             fv = z3.Function(name + "__val", *ints, z3.RealSort())
 
+            seenf = set()
+            lim = 1000 if dtype.itemsize == 2 else 10 ** 6
+
             def g0(idx):
+                v = fv(*idx)
+                cc = ctx()
+                k = (id(cc), v.get_id())
+                if k not in seenf:
+                    seenf.add(k)
+                    # preference for replayable counterexample / twin models only (never an assumption of a proof)
+                    cc.model_hints.append(z3.And(v >= -lim, v <= lim))
                 if nonan:
-                    return FElem(z3.BoolVal(False), fv(*idx))
-                return FElem(fn(*idx), fv(*idx))
+                    return FElem(z3.BoolVal(False), v)
+                return FElem(fn(*idx), v)
         elif dtype.kind == "b":
             fb = z3.Function(name, *ints, z3.BoolSort())
 
@@ -378,7 +418,7 @@ class SArr:
             b = [None] * nb
             for p in plan:
                 if p[0] == "s":
-                    b[p[1]] = I(p[2]) + p[3] * vidx[p[4]]
+                    b[p[1]] = _simp(I(p[2]) + p[3] * vidx[p[4]])
                 elif p[0] == "i":
                     b[p[1]] = I(p[2])
             return tuple(b)
@@ -389,11 +429,11 @@ class SArr:
             for p in plan:
                 if p[0] == "s":
                     _, bd, start, step, vd = p
-                    d = bidx[bd] - I(start)
+                    d = _simp(bidx[bd] - I(start))
                     if step == 1:
                         vi = d
                     elif step == -1:
-                        vi = -d
+                        vi = _simp(-d)
                     else:
                         vi = d / step
                         conds.append(d % step == 0)
@@ -550,8 +590,25 @@ class SArr:
         if _np.prod(s, dtype=object) != _np.prod(old, dtype=object):
             raise ValueError("cannot reshape array of size %s into shape %s" % (old, s))
         src = self.frozen()
+        groups = _reshape_groups(old, s)
 
         def get(idx):
+            if groups is not None:
+                out = [None] * len(old)
+                for olds, news in groups:
+                    if len(olds) == 1:
+                        # several new axes merge into one old axis: linear
+                        t = z3.IntVal(0)
+                        for k in news:
+                            t = t * s[k] + idx[k]
+                        out[olds[0]] = t
+                    else:
+                        # one new axis splits into several old axes: div/mod of that single index
+                        t = idx[news[0]]
+                        for k in reversed(olds):
+                            out[k] = t % old[k]
+                            t = t / old[k]
+                return src.get(tuple(out))
             flat = z3.IntVal(0)
             for d, i in zip(s, idx):
                 flat = flat * d + i
@@ -765,6 +822,43 @@ class SArr:
         return "SArr(%s, %s, %s)" % (self.name, self.shape, self.dtype)
 
 
+def _reshape_groups(old, new):
+    """Partition old/new axes into aligned groups with equal products where one side is a single axis; None if not possible."""
+    groups = []
+    i = j = 0
+    while i < len(old) or j < len(new):
+        if i >= len(old) or j >= len(new):
+            # trailing unit dims
+            rest_o = list(range(i, len(old)))
+            rest_n = list(range(j, len(new)))
+            if all(old[k] == 1 for k in rest_o) and all(new[k] == 1 for k in rest_n):
+                if rest_o and groups:
+                    return None
+                return groups if not rest_o else None
+            return None
+        oi, nj = [i], [j]
+        po, pn = old[i], new[j]
+        i += 1
+        j += 1
+        while po != pn:
+            if po < pn:
+                if i >= len(old):
+                    return None
+                po *= old[i]
+                oi.append(i)
+                i += 1
+            else:
+                if j >= len(new):
+                    return None
+                pn *= new[j]
+                nj.append(j)
+                j += 1
+        if len(oi) > 1 and len(nj) > 1:
+            return None
+        groups.append((oi, nj))
+    return groups
+
+
 def lift_int(v):
     if isinstance(v, SymBool):
         return z3.If(v.t, 1, 0)
@@ -788,7 +882,10 @@ def convert_elem(e, sdt, ddt, cast=False):
             return e
         return e != 0
     # integer destination
-    if isinstance(e, FElem):
+    if isinstance(e, FElem) and e.frac is not None:
+        num, n = e.frac
+        t = z3.If(num >= 0, num / n, -((-num) / n))
+    elif isinstance(e, FElem):
         t = sym_trunc(e.val)
         # NaN -> int is undefined behaviour in C; flag it so that a claim depending on it cannot be proven silently
         ctx().require(z3.Not(e.nan), "NaN converted to integer")
@@ -798,6 +895,8 @@ def convert_elem(e, sdt, ddt, cast=False):
         t = e
     info = _np.iinfo(ddt)
     if sdt is not None and sdt.kind in "iu" and _np.iinfo(sdt).min >= info.min and _np.iinfo(sdt).max <= info.max:
+        return t
+    if isinstance(e, FElem) and e.rng is not None and e.rng[0] >= info.min and e.rng[1] <= info.max:
         return t
     if ddt.itemsize >= 8:
         return t
@@ -991,13 +1090,23 @@ def nanmean(a, axis=None):
     isf = a.isfloat
 
     def combine(elems):
+        if not any(isinstance(e, FElem) for e in elems):
+            # integer input: no NaN, exact rational mean; keep the integer numerator for a later integer cast
+            ti = z3.IntVal(0)
+            for e in elems:
+                ti = ti + lift_int(e)
+            rng = (int(_np.iinfo(a.dtype).min), int(_np.iinfo(a.dtype).max)) if a.dtype.kind in "iu" else None
+            return FElem(z3.BoolVal(False), z3.ToReal(ti) / len(elems), frac=(ti, len(elems)), rng=rng)
         tot = z3.RealVal(0)
         cnt = z3.IntVal(0)
         for e in elems:
             e = lift(e, True)
             tot = tot + z3.If(e.nan, z3.RealVal(0), e.val)
             cnt = cnt + z3.If(e.nan, 0, 1)
-        return FElem(cnt == 0, z3.If(cnt == 0, z3.RealVal(0), tot / z3.ToReal(cnt)))
+        val = z3.RealVal(0)
+        for k in range(len(elems), 0, -1):
+            val = z3.If(cnt == k, tot / k, val)       # division by constants only (linear)
+        return FElem(cnt == 0, val)
 
     return _reduce_small(a, axis, combine, a.dtype if isf else _np.float64)
 
@@ -1009,6 +1118,12 @@ def mean(a, axis=None):
     isf = a.isfloat
 
     def combine(elems):
+        if not any(isinstance(e, FElem) for e in elems):
+            ti = z3.IntVal(0)
+            for e in elems:
+                ti = ti + lift_int(e)
+            rng = (int(_np.iinfo(a.dtype).min), int(_np.iinfo(a.dtype).max)) if a.dtype.kind in "iu" else None
+            return FElem(z3.BoolVal(False), z3.ToReal(ti) / len(elems), frac=(ti, len(elems)), rng=rng)
         tot = z3.RealVal(0)
         anynan = z3.BoolVal(False)
         for e in elems:
